@@ -1,9 +1,9 @@
 (** * BufBase: the buffer-and-marks invariant of the machine model: definitions and the
     lemmas about the closed helpers (everything except the tracing phases and the interpreter).
 
-    [Imk IL IQ m]: the buffer [pc m] is duplicate-free with an exact cached size, the mark of
+    [Imk Ls Qs m]: the buffer [pc m] is duplicate-free with an exact cached size, the mark of
     every heap object says exactly which collector list it is linked in ([PC] <-> [pc m],
-    [IL] <-> the list [IL], [IQ] <-> the list [IQ], [NM] otherwise), the byte counter is the sum
+    [Ls] <-> the list [Ls], [Qs] <-> the list [Qs], [NM] otherwise), the byte counter is the sum
     of the sizes of the allocated boxes, no counter ever underflowed.
     [Ibuf A m := Imk A [] m] + "a non-empty active list only exists during a collection".
 
@@ -148,14 +148,14 @@ Section Buf.
     - specialize (IH o E). rewrite bytes_of_cons. lia.
   Qed.
 
-  Record Imk (IL IQ : list id) (m : machine) : Prop := {
+  Record Imk (Ls Qs : list id) (m : machine) : Prop := {
     ik_nodup : NoDup (pc m);
     ik_size : pc_size m = N.of_nat (length (pc m));
-    ik_lists : NoDup (IL ++ IQ);
-    ik_valid : forall o, o ∈ pc m ++ IL ++ IQ -> is_Some (get m o);
+    ik_lists : NoDup (Ls ++ Qs);
+    ik_valid : forall o, o ∈ pc m ++ Ls ++ Qs -> is_Some (get m o);
     ik_pc : forall o x, get m o = Some x -> (h_mark (o_hdr x) = PC <-> o ∈ pc m);
-    ik_il : forall o x, get m o = Some x -> (h_mark (o_hdr x) = IL <-> o ∈ IL);
-    ik_iq : forall o x, get m o = Some x -> (h_mark (o_hdr x) = IQ <-> o ∈ IQ);
+    ik_il : forall o x, get m o = Some x -> (h_mark (o_hdr x) = IL <-> o ∈ Ls);
+    ik_iq : forall o x, get m o = Some x -> (h_mark (o_hdr x) = IQ <-> o ∈ Qs);
     ik_box : forall o x, get m o = Some x -> o_box x = BNotYet -> h_mark (o_hdr x) = NM;
     ik_bytes : st_alloc m = bytes m;
     ik_alive : pc_alive m = true;
@@ -168,7 +168,7 @@ Section Buf.
     Imk A [] m /\ (A <> [] -> st_collecting m = true).
 
   (** the invariant modulo model-detected misbehaviour *)
-  Definition GI (IL IQ : list id) (m : machine) : Prop := dirty m \/ Imk IL IQ m.
+  Definition GI (Ls Qs : list id) (m : machine) : Prop := dirty m \/ Imk Ls Qs m.
   Definition G (A : list id) (m : machine) : Prop := dirty m \/ Ibuf A m.
 
   (** ** What every activation preserves whatever its outcome *)
@@ -221,14 +221,14 @@ Section Buf.
     - intros _. exact Ee.
     - intros o x E. exists x. unfold get in *. rewrite Eh. auto.
   Qed.
-  Lemma Imk_core IL IQ m m' : core_eq m m' -> Imk IL IQ m -> Imk IL IQ m'.
+  Lemma Imk_core Ls Qs m m' : core_eq m m' -> Imk Ls Qs m -> Imk Ls Qs m'.
   Proof.
     intros (Eh & Ep & Es & Ea & _ & Eb & _ & El) [H1 H2 H3 H4 H5 H6 H7 H8 H9 H10 H11].
     unfold get, bytes, uflow in *. split; unfold get, bytes, uflow; rewrite ?Eh, ?Ep, ?Es, ?Ea, ?Eb, ?El; assumption.
   Qed.
   Lemma dirty_core m m' : core_eq m m' -> dirty m -> dirty m'.
   Proof. intros C. apply dirty_ext, ext_log_eq, C. Qed.
-  Lemma GI_core IL IQ m m' : core_eq m m' -> GI IL IQ m -> GI IL IQ m'.
+  Lemma GI_core Ls Qs m m' : core_eq m m' -> GI Ls Qs m -> GI Ls Qs m'.
   Proof. intros C [D|I]; [left; eapply dirty_core | right; eapply Imk_core]; eassumption. Qed.
   Lemma G_core A m m' : core_eq m m' -> G A m -> G A m'.
   Proof.
@@ -239,9 +239,10 @@ Section Buf.
   (** ** Emitting events *)
   Lemma frame_emit e m : frame m (emit e m).
   Proof.
-    split; try reflexivity; [apply ext_emit|cbn; lia|]. intros o x E. exists x. auto.
+    split; [apply ext_emit|reflexivity|apply N.le_refl|reflexivity|].
+    intros o x E. exists x. auto.
   Qed.
-  Lemma Imk_emit IL IQ e m : uf_ev e = false -> Imk IL IQ m -> Imk IL IQ (emit e m).
+  Lemma Imk_emit Ls Qs e m : uf_ev e = false -> Imk Ls Qs m -> Imk Ls Qs (emit e m).
   Proof.
     intros He [H1 H2 H3 H4 H5 H6 H7 H8 H9 H10 H11]. split; try assumption.
     unfold uflow in *. cbn. rewrite He, H11. reflexivity.
@@ -250,7 +251,7 @@ Section Buf.
   Proof. apply dirty_ext, ext_emit. Qed.
   Lemma dirty_emit_bad b o m : badk b = true -> dirty (emit_bad b o m).
   Proof. intros H. unfold dirty. cbn. rewrite H. reflexivity. Qed.
-  Lemma GI_emit IL IQ e m : uf_ev e = false -> GI IL IQ m -> GI IL IQ (emit e m).
+  Lemma GI_emit Ls Qs e m : uf_ev e = false -> GI Ls Qs m -> GI Ls Qs (emit e m).
   Proof. intros He [D|I]; [left; apply dirty_emit, D | right; apply Imk_emit; assumption]. Qed.
 
   (** ** Updates that keep marks, box states and sizes *)
@@ -266,13 +267,13 @@ Section Buf.
 
   Lemma frame_upd o f m : (forall x, o_box (f x) = o_box x) -> frame m (upd o f m).
   Proof.
-    intros Hf. split; try reflexivity; [apply ext_refl|cbn; lia|].
+    intros Hf. split; [apply ext_log_eq; reflexivity|reflexivity|apply N.le_refl|reflexivity|].
     intros o' x E. rewrite get_upd. destruct (decide (o = o')).
     - rewrite E. cbn. exists (f x). rewrite Hf. auto.
     - exists x. auto.
   Qed.
 
-  Lemma Imk_upd IL IQ o f m : keeps f -> Imk IL IQ m -> Imk IL IQ (upd o f m).
+  Lemma Imk_upd Ls Qs o f m : keeps f -> Imk Ls Qs m -> Imk Ls Qs (upd o f m).
   Proof.
     intros Hf [H1 H2 H3 H4 H5 H6 H7 H8 H9 H10 H11].
     assert (Hg : forall o' y, get (upd o f m) o' = Some y ->
@@ -289,15 +290,208 @@ Section Buf.
     - unfold bytes in *. cbn. rewrite bytes_of_alter_same; [exact H9|].
       intros x. apply keeps_osize, Hf.
   Qed.
-  Lemma GI_upd IL IQ o f m : keeps f -> GI IL IQ m -> GI IL IQ (upd o f m).
+  Lemma GI_upd Ls Qs o f m : keeps f -> GI Ls Qs m -> GI Ls Qs (upd o f m).
   Proof. intros Hf [D|I]; [left; exact D | right; apply Imk_upd; assumption]. Qed.
 
   Lemma keeps_hdr f : (forall h, h_mark (f h) = h_mark h) -> keeps (fun x => x <| o_hdr ::= f |>).
   Proof. intros Hf x. cbn. auto. Qed.
   Lemma frame_uhdr o f m : frame m (uhdr o f m).
   Proof. apply frame_upd. reflexivity. Qed.
-  Lemma GI_uhdr IL IQ o f m :
-    (forall h, h_mark (f h) = h_mark h) -> GI IL IQ m -> GI IL IQ (uhdr o f m).
+  Lemma GI_uhdr Ls Qs o f m :
+    (forall h, h_mark (f h) = h_mark h) -> GI Ls Qs m -> GI Ls Qs (uhdr o f m).
   Proof. intros Hf. apply GI_upd, keeps_hdr, Hf. Qed.
+
+
+  (** ** Generic transfer lemmas *)
+  Lemma frame_same m m' :
+    heap m' = heap m -> st_collecting m' = st_collecting m -> st_exec m' = st_exec m ->
+    ext m m' -> frame m m'.
+  Proof.
+    intros Eh Ec Ee El. split; [exact El|exact Ec|rewrite Ee; apply N.le_refl|intros _; exact Ee|].
+    intros o x E. exists x. unfold get in *. rewrite Eh. auto.
+  Qed.
+  Lemma frame_alter m m' f o :
+    heap m' = alter f o (heap m) -> (forall x, o_box (f x) = o_box x) ->
+    st_collecting m' = st_collecting m -> st_exec m' = st_exec m -> ext m m' -> frame m m'.
+  Proof.
+    intros Eh Hf Ec Ee El. split; [exact El|exact Ec|rewrite Ee; apply N.le_refl|intros _; exact Ee|].
+    intros o' x E. unfold get, id in *. rewrite Eh. destruct (decide (o = o')) as [->|Hne].
+    - exists (f x). rewrite list_lookup_alter, E, Hf. cbn. auto.
+    - exists x. rewrite list_lookup_alter_ne by exact Hne. auto.
+  Qed.
+
+  Lemma GI_from Ls Qs Ls' Qs' m m' :
+    frame m m' -> (Imk Ls Qs m -> GI Ls' Qs' m') -> GI Ls Qs m -> GI Ls' Qs' m'.
+  Proof. intros F H [D|I]; [left; eapply frame_dirty; eassumption | auto]. Qed.
+
+  Lemma Imk_equiv Ls Qs Ls' Qs' m :
+    Imk Ls Qs m -> NoDup (Ls' ++ Qs') ->
+    (forall o, o ∈ Ls' <-> o ∈ Ls) -> (forall o, o ∈ Qs' <-> o ∈ Qs) -> Imk Ls' Qs' m.
+  Proof.
+    intros [H1 H2 H3 H4 H5 H6 H7 H8 H9 H10 H11] Hnd HL HQ. split; try assumption.
+    - intros o Ho. apply H4. rewrite !elem_of_app in *. rewrite <- HL, <- HQ. exact Ho.
+    - intros o x E. rewrite HL. eauto.
+    - intros o x E. rewrite HQ. eauto.
+  Qed.
+
+  (** one object changes (marks, box state), the lists change accordingly *)
+  Lemma Imk_reobj Ls Qs Ls' Qs' m m' o x g :
+    Imk Ls Qs m -> get m o = Some x ->
+    heap m' = alter g o (heap m) ->
+    pc_size m' = N.of_nat (length (pc m')) -> pc_alive m' = pc_alive m ->
+    st_alloc m' + osize x = st_alloc m + osize (g x) -> uflow m' = false ->
+    NoDup (pc m') -> NoDup (Ls' ++ Qs') ->
+    (forall o', o' <> o -> (o' ∈ pc m' <-> o' ∈ pc m) /\ (o' ∈ Ls' <-> o' ∈ Ls) /\
+                           (o' ∈ Qs' <-> o' ∈ Qs)) ->
+    (h_mark (o_hdr (g x)) = PC <-> o ∈ pc m') ->
+    (h_mark (o_hdr (g x)) = IL <-> o ∈ Ls') ->
+    (h_mark (o_hdr (g x)) = IQ <-> o ∈ Qs') ->
+    (o_box (g x) = BNotYet -> h_mark (o_hdr (g x)) = NM) ->
+    Imk Ls' Qs' m'.
+  Proof.
+    intros [H1 H2 H3 H4 H5 H6 H7 H8 H9 H10 H11] Ex Eh Es Ea Eb Eu Hnd Hnd' Hoth Hpc Hil Hiq Hbx.
+    assert (Hg : forall o', get m' o' = if decide (o = o') then g <$> get m o' else get m o').
+    { intros o'. unfold get. rewrite Eh. destruct (decide (o = o')) as [->|Hne].
+      - apply list_lookup_alter.
+      - apply list_lookup_alter_ne, Hne. }
+    assert (Hgo : get m' o = Some (g x)).
+    { rewrite Hg, decide_True, Ex by reflexivity. reflexivity. }
+    assert (Hgn : forall o', o' <> o -> get m' o' = get m o').
+    { intros o' Hne. rewrite Hg, decide_False by congruence. reflexivity. }
+    split; try assumption.
+    - intros o' Ho'. destruct (decide (o' = o)) as [->|Hne]; [rewrite Hgo; eauto|].
+      rewrite Hgn by exact Hne. apply H4. destruct (Hoth o' Hne) as (A1 & A2 & A3).
+      rewrite !elem_of_app in *. rewrite <- A1, <- A2, <- A3. exact Ho'.
+    - intros o' y E. destruct (decide (o' = o)) as [->|Hne].
+      + rewrite Hgo in E. injection E as <-. exact Hpc.
+      + rewrite Hgn in E by exact Hne. destruct (Hoth o' Hne) as (A1 & A2 & A3).
+        rewrite A1. eauto.
+    - intros o' y E. destruct (decide (o' = o)) as [->|Hne].
+      + rewrite Hgo in E. injection E as <-. exact Hil.
+      + rewrite Hgn in E by exact Hne. destruct (Hoth o' Hne) as (A1 & A2 & A3).
+        rewrite A2. eauto.
+    - intros o' y E. destruct (decide (o' = o)) as [->|Hne].
+      + rewrite Hgo in E. injection E as <-. exact Hiq.
+      + rewrite Hgn in E by exact Hne. destruct (Hoth o' Hne) as (A1 & A2 & A3).
+        rewrite A3. eauto.
+    - intros o' y E. destruct (decide (o' = o)) as [->|Hne].
+      + rewrite Hgo in E. injection E as <-. exact Hbx.
+      + rewrite Hgn in E by exact Hne. eauto.
+    - unfold bytes in *. rewrite Eh.
+      pose proof (bytes_of_alter g o (heap m) x Ex) as Hb. unfold id in *. lia.
+    - rewrite Ea. exact H10.
+  Qed.
+
+  (** marks of the three kinds are exclusive *)
+  Lemma Imk_mark_cases Ls Qs m o x :
+    Imk Ls Qs m -> get m o = Some x ->
+    match h_mark (o_hdr x) with
+    | NM => o ∉ pc m /\ o ∉ Ls /\ o ∉ Qs
+    | PC => o ∈ pc m /\ o ∉ Ls /\ o ∉ Qs
+    | IL => o ∉ pc m /\ o ∈ Ls /\ o ∉ Qs
+    | IQ => o ∉ pc m /\ o ∉ Ls /\ o ∈ Qs
+    end.
+  Proof.
+    intros I E. pose proof (ik_pc _ _ _ I o x E) as A1. pose proof (ik_il _ _ _ I o x E) as A2.
+    pose proof (ik_iq _ _ _ I o x E) as A3.
+    destruct (h_mark (o_hdr x)); repeat split;
+      try (apply A1; reflexivity); try (apply A2; reflexivity); try (apply A3; reflexivity);
+      rewrite <- ?A1, <- ?A2, <- ?A3; discriminate.
+  Qed.
+
+
+  (** ** [mild]: steps that preserve the frame and the invariant for every pair of lists *)
+  Definition mild (m m' : machine) : Prop :=
+    frame m m' /\ forall Ls Qs, GI Ls Qs m -> GI Ls Qs m'.
+
+  Lemma mild_refl m : mild m m.
+  Proof. split; [apply frame_refl|auto]. Qed.
+  Lemma mild_trans m1 m2 m3 : mild m1 m2 -> mild m2 m3 -> mild m1 m3.
+  Proof. intros [F1 H1] [F2 H2]. split; [eapply frame_trans; eassumption|auto]. Qed.
+  Lemma mild_frame m m' : mild m m' -> frame m m'.
+  Proof. intros [F _]. exact F. Qed.
+  Lemma mild_GI Ls Qs m m' : mild m m' -> GI Ls Qs m -> GI Ls Qs m'.
+  Proof. intros [_ H]. apply H. Qed.
+  Lemma mild_G A m m' : mild m m' -> G A m -> G A m'.
+  Proof.
+    intros [F H] [D|[I HA]]; [left; eapply frame_dirty; eassumption|].
+    destruct (H A [] (or_intror I)) as [D|I']; [left; exact D|right].
+    split; [exact I'|]. rewrite (fr_coll _ _ F). exact HA.
+  Qed.
+
+  Lemma mild_core m m' : core_eq m m' -> mild m m'.
+  Proof. intros C. split; [apply frame_core, C|intros Ls Qs; apply GI_core, C]. Qed.
+  Lemma mild_emit e m : uf_ev e = false -> mild m (emit e m).
+  Proof. intros He. split; [apply frame_emit|intros Ls Qs; apply GI_emit, He]. Qed.
+  Lemma mild_emit_bad b o m : b <> Underflow -> mild m (emit_bad b o m).
+  Proof. intros Hb. apply mild_emit. destruct b; try reflexivity. congruence. Qed.
+  Lemma mild_upd o f m : keeps f -> mild m (upd o f m).
+  Proof.
+    intros Hf. split; [apply frame_upd; intros x; apply Hf|intros Ls Qs; apply GI_upd, Hf].
+  Qed.
+  Lemma mild_uhdr o f m : (forall h, h_mark (f h) = h_mark h) -> mild m (uhdr o f m).
+  Proof. intros Hf. apply mild_upd, keeps_hdr, Hf. Qed.
+
+  (** *** remove_from_list / add_to_list *)
+  Lemma is_in_pc_get m o :
+    is_in_pc (hdr_of m o) = true -> exists x, get m o = Some x /\ h_mark (o_hdr x) = PC.
+  Proof.
+    unfold is_in_pc, hdr_of. destruct (get m o) as [x|]; [|discriminate].
+    intros H. exists x. split; [reflexivity|]. destruct (mark_eqb_spec (h_mark (o_hdr x)) PC); congruence.
+  Qed.
+  Lemma is_in_pc_false m o x :
+    get m o = Some x -> is_in_pc (hdr_of m o) = false -> h_mark (o_hdr x) <> PC.
+  Proof.
+    intros E. unfold is_in_pc. rewrite (hdr_of_get _ _ _ E).
+    destruct (mark_eqb_spec (h_mark (o_hdr x)) PC); congruence.
+  Qed.
+
+  Lemma frame_dec_size o m : frame m (dec_size o m).
+  Proof.
+    unfold dec_size. destruct (pc_size m =? 0); [apply frame_emit|].
+    apply frame_same; try reflexivity. apply ext_log_eq. reflexivity.
+  Qed.
+
+  Lemma frame_remove_from_list o m : frame m (remove_from_list o m).
+  Proof.
+    unfold remove_from_list. destruct (is_in_pc (hdr_of m o)); [|apply frame_refl].
+    destruct (pc_alive m); [|apply frame_refl].
+    eapply frame_trans; [|apply frame_dec_size].
+    eapply frame_trans; [apply (frame_uhdr o (set_mark NM))|].
+    apply frame_same; try reflexivity. apply ext_log_eq. reflexivity.
+  Qed.
+
+  Lemma Imk_remove_from_list Ls Qs o m :
+    Imk Ls Qs m -> Imk Ls Qs (remove_from_list o m).
+  Proof.
+    intros I. unfold remove_from_list.
+    destruct (is_in_pc (hdr_of m o)) eqn:Epc; [|exact I].
+    rewrite (ik_alive _ _ _ I).
+    destruct (is_in_pc_get _ _ Epc) as (x & Ex & Hm).
+    pose proof (Imk_mark_cases _ _ _ _ _ I Ex) as Hc. rewrite Hm in Hc. destruct Hc as (Hin & HnL & HnQ).
+    pose proof (length_remove_id o (pc m) (ik_nodup _ _ _ I) Hin) as Hlen.
+    pose proof (ik_size _ _ _ I) as Hsz.
+    unfold dec_size. cbn [pc_size set]. 
+    replace (pc_size (uhdr o (set_mark NM) m <| pc ::= remove_id o |>)) with (pc_size m) by reflexivity.
+    destruct (pc_size m =? 0) eqn:Ez; [apply N.eqb_eq in Ez; lia|].
+    eapply (Imk_reobj Ls Qs Ls Qs m _ o x (fun x => x <| o_hdr ::= set_mark NM |>)); try exact I;
+      try exact Ex; try reflexivity.
+    - cbn. rewrite Hsz, Hlen. lia.
+    - cbn. lia.
+    - exact (ik_uflow _ _ _ I).
+    - cbn. apply NoDup_remove_id, (ik_nodup _ _ _ I).
+    - exact (ik_lists _ _ _ I).
+    - intros o' Hne. cbn. rewrite remove_id_spec. tauto.
+    - cbn. rewrite remove_id_spec. split; [discriminate|tauto].
+    - cbn. split; [discriminate|tauto].
+    - cbn. split; [discriminate|tauto].
+  Qed.
+
+  Lemma mild_remove_from_list o m : mild m (remove_from_list o m).
+  Proof.
+    split; [apply frame_remove_from_list|]. intros Ls Qs. apply GI_from.
+    - apply frame_remove_from_list.
+    - intros I. right. apply Imk_remove_from_list, I.
+  Qed.
 
 End Buf.
